@@ -38,7 +38,7 @@ func (c05) Budget(tier string) core.Budget {
 	if tier == "thorough" {
 		return core.Budget{Runs: 3000000, WallCap: 20 * time.Minute}
 	}
-	return core.Budget{Runs: 6000, WallCap: 45 * time.Second}
+	return core.Budget{Runs: 24000, WallCap: 45 * time.Second}
 }
 
 var exitKinds = []string{"normal", "break", "continue", "return", "error"}
